@@ -1591,20 +1591,20 @@ Node log_normal_node(
  */
 template<typename Var>
 type_traits::Identity<Var> log_normal(
-    const Shape &shape, float mean, float sd, Device &dev);
+    const Shape &shape, float mean, float sd, Device *dev);
 
 /// @cond
 
 template<>
 inline Tensor log_normal<Tensor>(
-    const Shape &shape, float mean, float sd, Device &dev) {
-  return log_normal_tensor(shape, mean, sd, &dev);
+    const Shape &shape, float mean, float sd, Device *dev) {
+  return log_normal_tensor(shape, mean, sd, dev);
 }
 
 template<>
 inline Node log_normal<Node>(
-    const Shape &shape, float mean, float sd, Device &dev) {
-  return log_normal_node(shape, mean, sd, &dev, nullptr);
+    const Shape &shape, float mean, float sd, Device *dev) {
+  return log_normal_node(shape, mean, sd, dev, nullptr);
 }
 
 /// @endcond
